@@ -271,6 +271,10 @@ def c05(ctx):
     mism, summary, total = run_streams(ctx, ALL, structure_only=True, **p)
     stream_traces(ctx, ALL, 600 if ctx.tier == "quick" else 10000, structure_only=True)
     nob = vlib.run_tlapm(ctx, "StreamShapesProof", ["StreamShapes"])
+    nfz = vlib.run_tlapm(ctx, "FreezeShapeProof", ["StreamShapes"])
+    ctx.notes.append("TLAPS: FreezeShapeProof.tla proves (%d obligations) the freeze clause on the value-free machine for any history: a true condition "
+                     "changes nothing, an absent condition gives absent, a failing condition its error, a false condition passes the input's "
+                     "category and error identity through" % nfz)
     ctx.notes.append("TLAPS: StreamShapesProof.tla proves (%d obligations), for histories of any length and each of the 13 non-freeze kinds, that the "
                      "output category is present exactly when the count of present samples since the last reset has reached the kind's threshold, "
                      "that no stale error is ever shown (after a non-error event never an error; after an error that error) and that a reset event "
